@@ -396,7 +396,16 @@ func c07Case(c *ctx, sc schemaSpec, raw string, how string, prop string) {
 			}
 		}
 	}
+	// the model of url.Parse + Query() against the standard library
+	inDomain := strings.HasPrefix(raw, "/") && !strings.HasPrefix(raw, "//")
+	c.add("rawparse", raw, fmt.Sprintf("%s in=%v ok=%v", how, inDomain, perr == nil), !inDomain,
+		"(run_rawparse "+gStr(raw)+")", oRawParse(raw, inDomain, pu, perr), "", "")
 	if perr != nil {
+		if inDomain {
+			// NewURLFromRaw through the model's own url.Parse: both must refuse
+			c.add("rawurl", raw, how+" parse-error", false,
+				fmt.Sprintf("(run_url_raw %s %s FOErr %s)", "(sch_schema "+sc.gallina()+")", gStr(raw), gStr("")), obs, "", "")
+		}
 		return // url.Parse rejects it: no (path, query) to give the model
 	}
 	q := pu.Query()
@@ -408,6 +417,36 @@ func c07Case(c *ctx, sc schemaSpec, raw string, how string, prop string) {
 		fmt.Sprintf("(run_url %s %s %s %s %s)", "(sch_schema "+sc.gallina()+")", gStr(pu.Path), gValues(q), fo, gStr(labelJSON)),
 		obs, key, detail)
 	k.Replay = how + ": " + raw
+	if inDomain {
+		k2 := c.add("rawurl", raw, feature, false,
+			fmt.Sprintf("(run_url_raw %s %s %s %s)", "(sch_schema "+sc.gallina()+")", gStr(raw), fo, gStr(labelJSON)), obs, "", "")
+		k2.Replay = how + ": " + raw
+	}
+}
+
+// oRawParse: what url.Parse and URL.Query() make of raw (keys sorted).
+func oRawParse(raw string, inDomain bool, pu *url.URL, perr error) string {
+	if !inDomain {
+		return oC("outside")
+	}
+	if perr != nil {
+		return oC("fail")
+	}
+	q := pu.Query()
+	ks := make([]string, 0, len(q))
+	for k := range q {
+		ks = append(ks, k)
+	}
+	sort.Strings(ks)
+	var it []string
+	for _, k := range ks {
+		vs := make([]string, len(q[k]))
+		for i, v := range q[k] {
+			vs[i] = oS(v)
+		}
+		it = append(it, oL([]string{oS(k), oL(vs)}))
+	}
+	return oC("ok", oS(pu.Path), oL(it))
 }
 
 func parseFrags(p string) []string {
@@ -537,6 +576,14 @@ func runURLs(c *ctx, prop string) {
 	for i := 0; i < n; i++ {
 		c07Case(c, sc, randRawURL(c.r, i%3 == 0), "grammar", prop)
 	}
+	// raw strings inside the domain of the url.Parse model: one leading slash, then anything
+	for i := 0; i < n/5; i++ {
+		b := make([]byte, c.r.intn(40))
+		for j := range b {
+			b[j] = pick(c.r, []byte("/?&==[]%%tua,.-:;#+ 0123456789abcdefABCDEFgG\x00\x1f\x7f\xffé{}\"\\"))
+		}
+		c07Case(c, sc, "/t"+string(b), "rawdomain", prop)
+	}
 	if prop == "C07" {
 		// raw strings
 		for i := 0; i < n/5; i++ {
@@ -553,7 +600,7 @@ func runC07(c *ctx) { runURLs(c, "C07") }
 func runC08(c *ctx) { runURLs(c, "C08") }
 
 func init() {
-	imports := []string{"Model.GoTime", "Gen.TypeGo", "Model.Schema", "Model.Value", "Model.Json", "Model.SoftRes", "Model.Wrapper", "Model.Resource", "Model.Unmarshal", "Model.Url", "Model.C07"}
+	imports := []string{"Model.GoTime", "Gen.TypeGo", "Model.Schema", "Model.Value", "Model.Json", "Model.SoftRes", "Model.Wrapper", "Model.Resource", "Model.Unmarshal", "Model.Url", "Model.C07", "Model.UrlParse", "Model.C08"}
 	register("C07", imports, runC07)
 	register("C08", imports, runC08)
 }
